@@ -207,6 +207,8 @@ class t2listing(object):
         self._file.seek(self._fullpos[i])
         self._index = i
         if self._index < 0: self._index += self.num_fulltimes
+        # (a table not printed in this set of results must not keep the values of another:)
+        for table in self._table.values(): table._data[:] = 0.
         self.read_tables()
     index = property(get_index,set_index)
 
